@@ -160,21 +160,10 @@ def zip5 (f : Ext → Ext → Ext → Ext → Ext → Bool) : List Ext → List 
 /-- `some true` valid, `some false` invalid, `none` unspecified by the property (a start point with
     some but not all coordinates NaN). -/
 def specValid (r : Raw) : Option Bool :=
-  let plb0 := match r.plb with | some v => some v | none => r.lb
-  let pub0 := match r.pub with | some v => some v | none => r.ub
-  let x0? : Option (List Ext) := match r.x0 with
-    | some v => some v
-    | none => match plb0, pub0 with
-      | some p, some _ => some (p.map (fun _ => Ext.nan))
-      | _, _ => none
-  match x0? with
-  | none => some false
-  | some x0 =>
+  match prepare r with
+  | none => some false                      -- no way to infer the dimension
+  | some (x0, lb, ub, plb, pub) =>
     let D := x0.length
-    let lb := r.lb.getD (List.replicate D .ninf)
-    let ub := r.ub.getD (List.replicate D .pinf)
-    let plb := plb0.getD lb
-    let pub := pub0.getD ub
     if lb.length != D || ub.length != D || plb.length != D || pub.length != D then some false
     else
       let nNan := (x0.filter (·.isNan)).length
